@@ -775,7 +775,7 @@ def run(ctx):
         info = execute(ctx, case)
         ctx.case((case["feats"], case["opts"]), info["gaps"] >= 1, sample=case if len(feats) == 2 else None,
                  cls="list/objects update_attributes")
-    for _ in range(ctx.budget(300, 8000)):
+    for _ in range(ctx.budget(200, 8000)):
         fmt = rng.choice(["gff3", "gtf"])
         feats = G.feature_list(rng, unique_ids=True)
         if fmt == "gtf":
@@ -788,7 +788,7 @@ def run(ctx):
         info = execute(ctx, case)
         ctx.case((fmt, case["feats"], case["opts"]), info["gaps"] >= 1, cls="list/db update_attributes")
     # several transcripts of different strands ('+', '-', '.', '?') in one call, every file / visiting order
-    for _ in range(ctx.budget(400, 14000)):
+    for _ in range(ctx.budget(320, 14000)):
         fmt = rng.choice(["gff3", "gff3", "gtf"])
         call = rng.choice(["splice", "splice", "introns"])
         case = {"kind": call, "fmt": fmt, "recs": G.strand_order_model(rng, fmt), "opts": G.strand_order_options(rng, fmt, call),
@@ -797,7 +797,7 @@ def run(ctx):
         ctx.case((call, fmt, case["recs"], case["opts"]), len(info.get("strands", ())) > 1 and info["gaps"] >= 2,
                  sample=case if len(case["recs"]) <= 7 else None, cls="%s/%s transcripts of different strands" % (call, fmt))
     # databases that already hold derived features: update(list(create_x())), reopen, call again
-    for _ in range(ctx.budget(200, 8000)):
+    for _ in range(ctx.budget(140, 8000)):
         fmt = rng.choice(["gff3", "gtf"])
         call = rng.choice(["introns", "splice"])
         recs = G.strand_order_model(rng, fmt) if rng.random() < 0.3 else G.gene_model(rng, fmt)
